@@ -211,10 +211,10 @@ UNIT = Unit(
            'static size_t length(const XalanDOMChar* theString)',
            head_expect=r'^inline XalanDOMString::size_type length\(const XalanDOMChar\* theString\)$',
            rules=['SCOPE', ('FCASTS', ['XalanDOMString_size_type'])], contract=LEN_CONTRACT, loops={0: LEN_LOOP}, nloops=1),
-        Fn(DS, r'^consumeWhitespace\(\s*const XalanDOMChar\*&\s+theString,', 'consumeWhitespace2',
+        Fn(DS, r'^consumeWhitespace\(\s*const XalanDOMChar\*&?\s+theString,', 'consumeWhitespace2',
            'static void consumeWhitespace2(const XalanDOMChar** theString, size_t* theLength)',
-           head_expect=r'^inline void consumeWhitespace\( const XalanDOMChar\*& theString, XalanDOMString::size_type& theLength\)$',
-           rules=[(r'\btheString\b', '(*theString)', 3), (r'\btheLength\b', '(*theLength)', 1)],
+           head_expect=r'^inline void consumeWhitespace\( const XalanDOMChar\*&? theString, XalanDOMString::size_type&? theLength\)$',
+           rules=[], ref_params={'theString': 'const XalanDOMChar*', 'theLength': 'size_t'},
            contract=CW2_CONTRACT, loops={0: CW2_LOOP}, nloops=1),
         Fn(DH, r'^WideStringToIntegral\(', 'WideStringToIntegral_long',
            'static long WideStringToIntegral_long(const XalanDOMChar* theString, long theDummy)',
